@@ -742,7 +742,7 @@ static void case_c13(rng_t *r, ctx_t *c) {
     }
     /* user data */
     int nuser = (int) rng_range(r, 0, 8);
-    int usermax = 0;
+    int usermax = 0, n_placeholder = 0;
     for (int i = 0; i < nuser; ++i) {
         op_t *o = ol_add(&luser, OP_USER);
         o->meta = (uint16_t) rng_below(r, 4096);
@@ -756,6 +756,7 @@ static void case_c13(rng_t *r, ctx_t *c) {
         if (scls > usermax) usermax = scls;
         if (o->stype != JLS_STORAGE_TYPE_BINARY && o->dsize == 0) o->dsize = 1;
         o->dseed = rng_u64(r);
+        if (rng_chance(r, 1, 7)) { o->stype = JLS_STORAGE_TYPE_INVALID; o->dsize = (uint32_t) rng_below(r, 20); n_placeholder++; }   /* a placeholder between the items */
     }
     /* rejected calls: duplicate source, duplicate signal, signal with undefined source, data for undefined signal, ids >= 256 */
     oplist_t lrej; memset(&lrej, 0, sizeof(lrej));
@@ -903,7 +904,7 @@ static void case_c13(rng_t *r, ctx_t *c) {
     emit_io_counters("C14");
     v_count("C13", "rejected_calls_checked", rejected);
     sample_prog("C13", &p);
-    v_feature("C13", 1, "src=%d|sig=%d|user=%d|usermax=%d|strmax=%d|rej=%d|big=%d", src_n, (int) nsigdefs, nuser, usermax, strmax, nrej, big);
+    v_feature("C13", 1, "src=%d|sig=%d|user=%d|usermax=%d|strmax=%d|rej=%d|big=%d|placeholders=%d", src_n, (int) nsigdefs, nuser, usermax, strmax, nrej, big, n_placeholder > 0);
     decode_and_compare(path, &m, "C05", "sync", 0);
     verify_opts_t vo = {.prop_len = "C01", .prop_data = "C01", .windows = 4, .check_defs = 1, .check_user = 1, .rng = r, .file_kind = "sync"};
     verify_file(path, &m, &vo);
